@@ -37,6 +37,7 @@ class Config:
     rename: tuple = ()  # (old_key, new_key) pairs of annotator features renamed after build
     seg_dtype: str = "int64"  # dtype of the label array (napari layers use all of these)
     int_axis0: bool = False  # without segmentation: the first position axis holds Python ints
+    custom_annotator: bool = False  # a user-written annotator appended to tracks.annotators
 
     def to_json(self):
         d = asdict(self)
@@ -466,6 +467,8 @@ def build_tracks(cfg: Config):
             if old in tracks.annotators.features:
                 rename_feature(tracks, old, new)
                 tracks.enable_features([new])
+    if cfg.custom_annotator:
+        tracks.annotators.append(make_child_count_annotator(tracks))
     if cfg.custom:
         # registered custom (static) features, as an importer registers loaded columns
         from funtracks.features import Feature
@@ -494,3 +497,30 @@ def build_tracks(cfg: Config):
             if rng.random() < 0.8:
                 tracks.graph.edges[e]["weight"] = round(rng.random(), 3)
     return tracks, forest, rng
+
+
+def make_child_count_annotator(tracks):
+    """A minimal user-written annotator (the documented extension path: subclass
+    GraphAnnotator, append an instance to tracks.annotators): node feature 'n_children'."""
+    from funtracks.annotators._graph_annotator import GraphAnnotator
+    from funtracks.features import Feature
+
+    class ChildCount(GraphAnnotator):
+        KEY = "n_children"
+
+        def __init__(self, tr):
+            super().__init__(tr, {self.KEY: Feature(
+                feature_type="node", value_type="int", num_values=1,
+                display_name="children", required=False, default_value=None)})
+
+        def compute(self, feature_keys=None):
+            if self.KEY not in self._filter_feature_keys(feature_keys):
+                return
+            for n in self.tracks.graph.nodes:
+                self.tracks._set_node_attr(n, self.KEY, self.tracks.graph.out_degree(n))
+
+        def update(self, action):
+            if self.KEY in self.features:
+                self.compute()
+
+    return ChildCount(tracks)
